@@ -10,7 +10,7 @@ t_model = tmpl.pick(tmpl.model_case, LABELS)
 def templates(tier, seed):
     ts = []
     for N in ((2,) if tier == "quick" else (1, 2, 3)):
-        for shape in ("single", "override_field", "add_field", "three_level", "optional_alias", "check_methods", "config_extras", "inherited_cls_check", "falsy_alias", "reannotate", "field_check_options", "parser_methods", "two_parsers"):
+        for shape in ("single", "override_field", "add_field", "three_level", "optional_alias", "check_methods", "config_extras", "inherited_cls_check", "falsy_alias", "reannotate", "field_check_options", "parser_methods", "two_parsers", "diamond", "regex_check"):
             ts.append(Template(f"{shape}/N={N}", t_model, (shape, N)))
     import tmpl_pl
 
